@@ -95,11 +95,11 @@ TCas(t, M(_)) ==
                 THEN LET item == H.slotItem[id.value]
                          again == id \in H.taken
                          wrong == id \notin DOMAIN H.emplaced \/ (id \in DOMAIN H.emplaced /\ H.emplaced[id] # item)
-                     IN /\ SetL(t, [L[t] EXCEPT !.rok = 1, !.item = item])
+                     IN /\ SetL(t, [L[t] EXCEPT !.rok = 1, !.item = item, !.seen = old])
                         /\ H' = Flag(Flag([H EXCEPT !.taken = @ \cup {id}],
                                           again /\ ~Reused(H, id), "OneTakerWins"),
                                      (again /\ Reused(H, id)) \/ wrong, "StaleNeverMatches")
-                ELSE /\ SetL(t, [L[t] EXCEPT !.rok = 0, !.item = 0])
+                ELSE /\ SetL(t, [L[t] EXCEPT !.rok = 0, !.item = 0, !.seen = old])
                      \* nobody has obtained the item of a valid id, yet this take came back empty
                      /\ H' = Flag(H, id \notin H.taken, "OneTakerWins"))
   /\ Goto(t, "t_got")
